@@ -101,33 +101,36 @@ def NoByteLost (d dc : DirSt) : Prop :=
 
 /-! ## C03 for histories -/
 
-/-- the state reached by a history satisfies the run invariant for its units -/
-theorem history_state (s₀ : St) (db₀ : DB) (g₀ : GDir) (ops : List AOp)
+/-- the state reached by a history satisfies the run invariant for its units.  `dy` ⊇ the ids of
+    orphaned batch records of the old log count as abandoned; `used` ⊇ the batch ids of the old log -/
+theorem history_state (s₀ : St) (db₀ : DB) (g₀ : GDir) (ops : List AOp) (dy used : List Nat)
     (hs₀ : s₀.db = some db₀) (hf₀ : Files s₀ db₀ g₀) (hnb : db₀.batch = none) (hd₀ : DInv s₀ db₀)
-    (hok : ∀ op ∈ ops, AOpOK op) (hids : IdsOK s₀ ⟨[], [], orphanIds g₀⟩ ops) :
-    ∃ L h, RunInv L db₀.cfg db₀.dir (arun s₀ ops) h ∧
+    (hdy : ∀ i ∈ orphanIds g₀, i ∈ dy) (hused : ∀ x ∈ logOf g₀, x.1.batch ≠ 0 → x.1.batch ∈ used)
+    (hok : ∀ op ∈ ops, AOpOK op) (hids : IdsOK s₀ ⟨[], [], dy⟩ ops) :
+    ∃ L h, RunInv L db₀.cfg db₀.dir (arun s₀ ops) h (bnewIds ops ++ used) ∧
       h.units = unitsOfLog (logOf g₀) ++ unitsOf s₀ ops := by
-  obtain ⟨L, hr⟩ := RunInv_start hs₀ hf₀ hnb hd₀
+  obtain ⟨L, hr⟩ := RunInv_start hs₀ hf₀ hnb hd₀ dy used hdy hused
   refine ⟨L, _, RunInv_arun ops hr hok ((IdsOK_units ops s₀ _ _ _).mpr hids), ?_⟩
-  rw [hrun_units ops s₀ _ [] (orphanIds g₀)]
+  rw [hrun_units ops s₀ _ [] dy]
   congr 1
-  exact (hrun_indep_dirty ops s₀ [] [] (orphanIds g₀) []).1
+  exact (hrun_indep_dirty ops s₀ [] [] dy []).1
 
 /-- **C03 for call histories, from any start state.**
     `s₀`: an open handle `db₀` without batch object whose data files are the ghost directory `g₀`
     (`Files`) and which satisfies the durability invariant; `ops`: any history with the size side
-    conditions and the batch-id side condition `IdsOK`, the ids of orphaned batch records of the
-    old log (`orphanIds g₀`: something is parked under them in the replay of `g₀`) counting as
-    abandoned.
+    conditions and the batch-id side condition `IdsOK`, where the ids `dy` count as abandoned from
+    the start — `dy` must contain the ids of orphaned batch records of the old log (`orphanIds g₀`:
+    something is parked under them in the replay of `g₀`; `dy := orphanIds g₀` is the weakest choice).
     Let `U = unitsOfLog (logOf g₀) ++ unitsOf s₀ ops` (what the old log denotes, then the units of
     the history).  For EVERY crash image of the state reached, `Open` under any valid configuration
     succeeds and there is `j ≤ U.length` such that the recovered mapping is `specOfUnits (U.take j)`;
     (a) `j = U.length` if no byte was lost; (b) `j ≥ n` whenever `n` units are durable;
     and the recovered handle satisfies the engine invariant for a ghost directory `g'` that denotes
-    exactly `U.take j` (so the theorem applies again to the recovered state). -/
+    exactly `U.take j`. -/
 theorem C03_history_prefix_from (s₀ : St) (db₀ : DB) (g₀ : GDir) (ops : List AOp) (cfg' : Cfg)
     (hs₀ : s₀.db = some db₀) (hf₀ : Files s₀ db₀ g₀) (hnb : db₀.batch = none) (hd₀ : DInv s₀ db₀)
-    (hok : ∀ op ∈ ops, AOpOK op) (hids : IdsOK s₀ ⟨[], [], orphanIds g₀⟩ ops)
+    (dy : List Nat) (hdy : ∀ i ∈ orphanIds g₀, i ∈ dy)
+    (hok : ∀ op ∈ ops, AOpOK op) (hids : IdsOK s₀ ⟨[], [], dy⟩ ops)
     (hcfg' : cfg'.Valid) (sc : St) (d dc : DirSt) (hcr : Crashed (arun s₀ ops) sc db₀.dir d dc) :
     ∃ s' db' g' j, openDB sc db₀.dir cfg' = (s', .ok) ∧ s'.db = some db' ∧
       j ≤ (unitsOfLog (logOf g₀) ++ unitsOf s₀ ops).length ∧
@@ -135,8 +138,8 @@ theorem C03_history_prefix_from (s₀ : St) (db₀ : DB) (g₀ : GDir) (ops : Li
       (NoByteLost d dc → j = (unitsOfLog (logOf g₀) ++ unitsOf s₀ ops).length) ∧
       (∀ n, Durable (arun s₀ ops) n → n ≤ j) ∧
       Inv s' db' g' ∧ unitsOfLog (logOf g') = (unitsOfLog (logOf g₀) ++ unitsOf s₀ ops).take j := by
-  obtain ⟨L, h, hr, hu⟩ := history_state s₀ db₀ g₀ ops hs₀ hf₀ hnb hd₀ hok hids
-  obtain ⟨s', db', g', j, h1, h2, h3, h4, h5, h6, h7, h8⟩ :=
+  obtain ⟨L, h, hr, hu⟩ := history_state s₀ db₀ g₀ ops dy (tagIds g₀) hs₀ hf₀ hnb hd₀ hdy (tagIds_spec g₀) hok hids
+  obtain ⟨s', db', g', j, h1, h2, h3, h4, h5, h6, h7, h8, _⟩ :=
     crash_of_RunInv hr sc cfg' d dc hcr.before hcr.nodb hcr.after hcr.unlocked hcr.image hcr.nomerge hcfg'
   rw [hu] at h4 h5 h6 h7
   exact ⟨s', db', g', j, h1, h2, h5, h6, h7, h8, h3, h4⟩
@@ -152,10 +155,10 @@ theorem fresh_start (dir : String) (cfg : Cfg) (hcfg : cfg.Valid) :
 theorem idsOK_of_freshIds (dir : String) (cfg : Cfg) (hcfg : cfg.Valid) (ops : List AOp)
     (hok : ∀ op ∈ ops, AOpOK op) (hfr : FreshIds ops) : IdsOK (openDB St.init dir cfg).1 h0 ops := by
   obtain ⟨e0, e1, e2, e3, _, e5⟩ := fresh_start dir cfg hcfg
-  obtain ⟨L, hr⟩ := RunInv_start e1 e2 rfl e3
+  obtain ⟨L, hr⟩ := RunInv_start e1 e2 rfl e3 [] [] (by rw [e5]; intro i hi; exact hi)
+    (by intro x hx; simp [logOf] at hx)
   rw [e0]
   apply (IdsOK_units ops _ (unitsOfLog (logOf [(0, [])])) [] []).mp
-  rw [e5] at hr
   refine IdsOK_of_fresh ops hr hok hfr.1 ?_
   intro i hi
   exact ⟨hfr.2 i hi, by simp, fun b hb => by simp [batchOf, freshSt, freshDB] at hb⟩
@@ -181,8 +184,8 @@ theorem C03_history_prefix (dir : String) (cfg cfg' : Cfg) (hcfg : cfg.Valid) (h
   obtain ⟨e0, e1, e2, e3, e4, e5⟩ := fresh_start dir cfg hcfg
   rw [e0] at hcr hids ⊢
   obtain ⟨s', db', g', j, h1, h2, h3, h4, h5, h6, _, _⟩ :=
-    C03_history_prefix_from (freshSt dir cfg) (freshDB dir cfg) [(0, [])] ops cfg' e1 e2 rfl e3 hok
-      (by rw [e5]; exact hids) hcfg' sc d dc hcr
+    C03_history_prefix_from (freshSt dir cfg) (freshDB dir cfg) [(0, [])] ops cfg' e1 e2 rfl e3 []
+      (by rw [e5]; intro i hi; exact hi) hok hids hcfg' sc d dc hcr
   rw [e4, List.nil_append] at h3 h4 h5
   exact ⟨s', db', j, h1, h2, h3, h4, h5, h6⟩
 
@@ -190,8 +193,8 @@ theorem C03_history_prefix (dir : String) (cfg cfg' : Cfg) (hcfg : cfg.Valid) (h
 
 /-- in a state reached by a history, if every data file is completely flushed then every
     acknowledged unit is durable -/
-theorem durable_of_allSynced {L : Nat} {cfg : Cfg} {dir : String} {s : St} {h : Hist}
-    (hr : RunInv L cfg dir s h) (hall : ∀ db, s.db = some db → AllSynced s db) :
+theorem durable_of_allSynced {L : Nat} {cfg : Cfg} {dir : String} {s : St} {h : Hist} {used : List Nat}
+    (hr : RunInv L cfg dir s h used) (hall : ∀ db, s.db = some db → AllSynced s db) :
     Durable s h.units.length := by
   obtain ⟨db, g, hi⟩ := hr.hinv
   have := Durable_all hi.open_ hi.files (hall db hi.open_)
@@ -209,8 +212,8 @@ theorem C03_history_flushed (dir : String) (cfg cfg' : Cfg) (hcfg : cfg.Valid) (
       ∀ k, absGet s' db' k = specOfUnits (unitsOf (openDB St.init dir cfg).1 ops) k := by
   obtain ⟨s', db', j, h1, h2, h3, h4, _, h6⟩ := C03_history_prefix dir cfg cfg' hcfg hcfg' ops hok hids sc d dc hcr
   obtain ⟨e0, e1, e2, e3, e4, e5⟩ := fresh_start dir cfg hcfg
-  obtain ⟨L, h, hr, hu⟩ := history_state (freshSt dir cfg) (freshDB dir cfg) [(0, [])] ops e1 e2 rfl e3 hok
-    (by rw [e5, ← e0]; exact hids)
+  obtain ⟨L, h, hr, hu⟩ := history_state (freshSt dir cfg) (freshDB dir cfg) [(0, [])] ops [] [] e1 e2 rfl e3
+    (by rw [e5]; intro i hi; exact hi) (by intro x hx; simp [logOf] at hx) hok (by rw [← e0]; exact hids)
   rw [e4, List.nil_append, ← e0] at hu
   rw [← e0] at hr
   have hdur := durable_of_allSynced hr hall
